@@ -363,6 +363,37 @@ def shared_french_sentence(rng):
             return ws + [rng.choice(last)]
 
 
+def shared_english_sentence(rng):
+    """A valid 12-word ENGLISH sentence made of words that are also French words."""
+    en, _ = ref.wordlist(EN)
+    fr = ref.wordlist(FR)[1]
+    shared = [w for w in en if w in fr]
+    while True:
+        ws = [rng.choice(shared) for _ in range(11)]
+        last = [w for w in shared if ref.decode_in(EN, ws + [w])[0] == "ok"]
+        if last:
+            return ws + [rng.choice(last)]
+
+
+def direct_cross_call_history(a):
+    """Results depend on the arguments only, not on what other decoder objects decoded before: after a French
+    sentence went through a fresh auto-detecting decoder, an English sentence made of en/fr shared words must still
+    decode (fresh auto-detecting decoder) to what the explicit English decoder gives."""
+    fr_ent, en_words = a
+    sent = " ".join(en_words)
+    want = _outcome(lambda: Bip39MnemonicDecoder(LANGS[EN]).Decode(sent))
+    before = _outcome(lambda: Bip39MnemonicDecoder().Decode(sent))
+    Bip39MnemonicDecoder().Decode(Bip39MnemonicEncoder(LANGS[FR]).Encode(fr_ent).ToStr())
+    Bip39MnemonicValidator().IsValid(Bip39MnemonicEncoder(LANGS[FR]).Encode(fr_ent).ToStr())
+    after = _outcome(lambda: Bip39MnemonicDecoder().Decode(sent))
+    if not (want == before == after):
+        return "English shared-word sentence: explicit %s, auto before %s, auto after a French decode %s" % (
+            str(want)[:50], str(before)[:50], str(after)[:50])
+    return None
+
+
+FUNCS["cross_call_history"] = Func(direct=direct_cross_call_history)
+
 SPACES = [" ", "  ", "\t", "\n", "\u3000", "\u00a0", " \u3000 ", "\u2003", "\x1f", "\u2028"]
 
 
@@ -417,6 +448,8 @@ def generate(ctx):
         for j in range(len(LANGS)):
             if i != j:
                 ctx.run("shared_instance", [[[i, bytes(range(i, i + 16))], [j, bytes(range(j + 40, j + 56))]]], "pair")
+    for _ in range(ctx.n(6, 60)):
+        ctx.run("cross_call_history", [bytes(ctx.rng.randrange(256) for _ in range(16)), shared_english_sentence(ctx.rng)], "fr-then-en-shared")
     for _ in range(ctx.n(10, 200)):
         ctx.run("shared_instance", [[[ctx.rng.randrange(len(LANGS)), bytes(ctx.rng.randrange(256) for _ in range(ctx.rng.choice([16, 20, 24, 28, 32])))]
                                      for _ in range(ctx.rng.randrange(2, 7))]], "walk")
